@@ -14,12 +14,18 @@ if [ -d /tmp/wt-$ID/_seed ]; then cp /tmp/wt-$ID/_seed/patch.diff /tmp/wt-$ID/_s
 S=/tmp/seedchk-$ID
 git -C /repo worktree remove --force $S 2>/dev/null; rm -rf $S
 git -C /repo worktree add -q --detach $S HEAD || exit 3
-sed "s#/tmp/wt-$ID#$S#g" $V/seeded/$ID/demo.py > $S/_demo.py
-( cd $S && timeout 900 /venv/bin/python _demo.py > $V/scratch/seed-$ID-clean.out 2>&1 ); CLEAN=$?
+mkdir -p $S/_seed
+sed "s#/tmp/wt-$ID#$S#g" $V/seeded/$ID/demo.py > $S/_seed/demo.py      # demos locate the package relative to _seed/demo.py
+( cd $S && timeout 900 /venv/bin/python _seed/demo.py > $V/scratch/seed-$ID-clean.out 2>&1 ); CLEAN=$?
 ( cd $S && git apply $V/seeded/$ID/patch.diff ) || { echo "$ID: patch does not apply"; git -C /repo worktree remove --force $S; exit 3; }
-( cd $S && timeout 900 /venv/bin/python _demo.py > $V/scratch/seed-$ID-mut.out 2>&1 ); MUT=$?
+( cd $S && timeout 900 /venv/bin/python _seed/demo.py > $V/scratch/seed-$ID-mut.out 2>&1 ); MUT=$?
 PYT=$( cd $S && timeout 1500 /venv/bin/python -m pytest -q -p no:cacheprovider sedfitter 2>&1 | tail -1 )
 OUT=$V/seeded/$ID/result.txt
+if [ -n "${SEEDTEST_CONFIRM_ONLY:-}" ] && [ -f $OUT ]; then
+  # only refresh the confirmation line, keep the recorded check results
+  tail -n +2 $OUT > $OUT.tmp; echo "seed $ID: demo on clean tree exit=$CLEAN, with patch exit=$MUT; pytest with patch: $PYT" > $OUT; cat $OUT.tmp >> $OUT; rm -f $OUT.tmp
+  git -C /repo worktree remove --force $S; head -1 $OUT; exit 0
+fi
 echo "seed $ID: demo on clean tree exit=$CLEAN, with patch exit=$MUT; pytest with patch: $PYT" > $OUT
 for c in $CHECKS; do
   ( cd $V && SEDFITTER_REPO=$S VERIF_EVIDENCE_DIR=$V/scratch/seed-evidence-$ID VERIF_REPLAY_DIR=$V/scratch/seed-replays timeout 3600 ./vcheck $c --tier quick > $V/scratch/seed-$ID-$c.log 2>&1 ); RC=$?
